@@ -204,25 +204,26 @@ type found struct {
 }
 
 type workerResult struct {
-	Property      string         `json:"property"`
-	Seed          uint64         `json:"seed"`
-	Worker        int            `json:"worker"`
-	Evaluations   int            `json:"evaluations"`
-	Nontrivial    int            `json:"nontrivial"`
-	Keys          []uint64       `json:"keys"`
-	KeysSaturated bool           `json:"keys_saturated"`
-	States        []uint64       `json:"states"`
-	Scheds        []uint64       `json:"scheds"`
-	Faults        map[string]int `json:"faults"`
-	Probes        map[string]int `json:"probes"`
-	SimTimeS      float64        `json:"sim_time_s"`
-	Steps         int64          `json:"steps"`
-	Inconclusive  int            `json:"inconclusive"`
-	Samples       []any          `json:"samples"`
-	OtherProps    map[string]int `json:"other_property_violations"`
-	Known         map[string]int `json:"known_findings"`
-	Found         *found         `json:"found,omitempty"`
-	WallS         float64        `json:"wall_s"`
+	Property      string            `json:"property"`
+	Seed          uint64            `json:"seed"`
+	Worker        int               `json:"worker"`
+	Evaluations   int               `json:"evaluations"`
+	Nontrivial    int               `json:"nontrivial"`
+	Keys          []uint64          `json:"keys"`
+	KeysSaturated bool              `json:"keys_saturated"`
+	States        []uint64          `json:"states"`
+	Scheds        []uint64          `json:"scheds"`
+	Faults        map[string]int    `json:"faults"`
+	Probes        map[string]int    `json:"probes"`
+	SimTimeS      float64           `json:"sim_time_s"`
+	Steps         int64             `json:"steps"`
+	Inconclusive  int               `json:"inconclusive"`
+	Samples       []any             `json:"samples"`
+	OtherProps    map[string]int    `json:"other_property_violations"`
+	OtherSamples  map[string]string `json:"other_property_samples"`
+	Known         map[string]int    `json:"known_findings"`
+	Found         *found            `json:"found,omitempty"`
+	WallS         float64           `json:"wall_s"`
 }
 
 type worldInfo struct {
@@ -370,6 +371,7 @@ func check(prop, tr string) int {
 	faults := map[string]int{}
 	probes := map[string]int{}
 	other := map[string]int{}
+	otherSamples := map[string]string{}
 	known := map[string]int{}
 	var samples []any
 	evals, nontriv, inconcl := 0, 0, 0
@@ -401,6 +403,11 @@ func check(prop, tr string) int {
 		}
 		for k, v := range r.OtherProps {
 			other[k] += v
+		}
+		for k, v := range r.OtherSamples {
+			if _, ok := otherSamples[k]; !ok {
+				otherSamples[k] = v
+			}
 		}
 		for k, v := range r.Known {
 			known[k] += v
@@ -502,6 +509,12 @@ func check(prop, tr string) int {
 	printMap("probes", probes)
 	if len(other) > 0 {
 		printMap("violations of other properties seen (decided by their own checks)", other)
+		for k, v := range otherSamples {
+			if len(v) > 400 {
+				v = v[:400]
+			}
+			fmt.Printf("      e.g. %s/%s\n", k, v)
+		}
 	}
 	ks := make([]string, 0, len(known))
 	for k := range known {
